@@ -88,6 +88,13 @@ Section inv.
     i_pay_nodup : NoDup (pay_ds (pool s));
     i_out : ∀ d v, outputs (ctl s) !! d = Some v →
              d ∈ j_ext J ∧ d ∈ fetched (ctl s) ∧ d ∉ (fetches s).*1 ∧ d ∉ pay_ds (pool s) ∧ v = payload_of J d;
+    (* --- progress bookkeeping (used by C03) *)
+    i_phase : ∀ t, is_task t → t ∉ completed (ctl s) →
+             t ∈ computable (ctl s) ∨ is_Some (tracker (ctl s) !! t) ∨ ∃ w, t ∈ ong (ctl s) w;
+    i_fin_ev : ∀ t d, t ∈ finished s → d ∈ outs J t → d ∈ seen (ctl s) ∨ d ∈ pub_ds (pool s);
+    i_seen_ext : ∀ d, d ∈ seen (ctl s) → d ∈ j_ext J → d ∈ fetched (ctl s) ∨ is_Some (fqueue (ctl s) !! d);
+    i_fetched : ∀ d, d ∈ fetched (ctl s) →
+             d ∈ (fetches s).*1 ∨ d ∈ pay_ds (pool s) ∨ is_Some (outputs (ctl s) !! d);
   }.
 End inv.
 
